@@ -1,14 +1,10 @@
+// The checks build this module with -modfile=<generated go.mod> (see checklib.modfile): requirements are
+// copied from the repository's own go.mod and the replace directive points at the tree under test.
+// This file only makes the directory a module for editors and for ./setup.sh.
 module wmverif
 
 go 1.21
 
 require github.com/ThreeDotsLabs/watermill v0.0.0
-
-require (
-	github.com/google/uuid v1.6.0 // indirect
-	github.com/lithammer/shortuuid/v3 v3.0.7 // indirect
-	github.com/oklog/ulid v1.3.1 // indirect
-	github.com/pkg/errors v0.9.1 // indirect
-)
 
 replace github.com/ThreeDotsLabs/watermill => /repo
